@@ -128,6 +128,7 @@ type HarnessResult struct {
 	Paths    int64
 	Decs     int64
 	Aborted  bool
+	TimedOut bool
 	KeptUnk  int64
 	WallS    float64
 }
@@ -147,6 +148,16 @@ func runHarness(l *Loaded, fn *ssa.Function, tier int, workers int) *HarnessResu
 	if tier == 1 {
 		ex.feasTO, ex.obligTO, ex.maxPaths = 6000, 30000, 2000000
 	}
+	// time budget per harness: exploration stops, the candidates found so far are still replayed and
+	// reported, and the check says that the exploration was incomplete
+	budget := 12 * time.Minute
+	if tier == 1 {
+		budget = 40 * time.Minute
+	}
+	if v := os.Getenv("GOSMT_HARNESS_BUDGET_S"); v != "" {
+		budget = time.Duration(atoiOr(v, 900)) * time.Second
+	}
+	ex.deadline = t0.Add(budget)
 	if v := os.Getenv("GOSMT_MAXPATHS"); v != "" {
 		ex.maxPaths = int64(atoiOr(v, 1000))
 	}
@@ -163,7 +174,7 @@ func runHarness(l *Loaded, fn *ssa.Function, tier int, workers int) *HarnessResu
 		ex.useCVC = false
 	}
 	ex.run(workers)
-	r := &HarnessResult{Name: fn.Name(), Leaves: ex.leaves, Obligs: ex.obligs, Paths: ex.paths, Decs: ex.decisions, Aborted: ex.aborted, KeptUnk: ex.keptUnknown}
+	r := &HarnessResult{Name: fn.Name(), Leaves: ex.leaves, Obligs: ex.obligs, Paths: ex.paths, Decs: ex.decisions, Aborted: ex.aborted, TimedOut: ex.timedOut, KeptUnk: ex.keptUnknown}
 	for f := range ex.encoded {
 		r.Encoded = append(r.Encoded, f)
 	}
